@@ -177,6 +177,7 @@ struct AnalyserInternalEquation
 
     AnalyserInternalVariablePtrs mVariables;
     AnalyserInternalVariablePtrs mOdeVariables;
+    AnalyserInternalVariablePtrs mAllOdeVariables;
     AnalyserInternalVariablePtrs mAllVariables;
     AnalyserInternalVariablePtrs mUnknownVariables;
 
@@ -252,6 +253,7 @@ void AnalyserInternalEquation::addOdeVariable(const AnalyserInternalVariablePtr 
 {
     if (std::find(mOdeVariables.begin(), mOdeVariables.end(), odeVariable) == mOdeVariables.end()) {
         mOdeVariables.push_back(odeVariable);
+        mAllOdeVariables.push_back(odeVariable);
         mAllVariables.push_back(odeVariable);
     }
 }
@@ -2985,6 +2987,31 @@ void Analyser::AnalyserImpl::analyseModel(const ModelPtr &model)
     // Make sure that our variables are valid.
 
     auto hasStatesWithoutRate = false;
+
+    // The rate of a state that has been marked as external cannot be provided
+    // (the equation that computes it is discarded and only the value of the
+    // state is retrieved), so it cannot be used by another equation.
+
+    for (const auto &internalEquation : mInternalEquations) {
+        for (const auto &odeVariable : internalEquation->mAllOdeVariables) {
+            if (odeVariable->mIsExternal
+                && ((internalEquation->mUnknownVariables.size() != 1)
+                    || (internalEquation->mUnknownVariables.front() != odeVariable))) {
+                auto issue = Issue::IssueImpl::create();
+                auto realVariable = odeVariable->mVariable;
+
+                issue->mPimpl->setDescription("Variable '" + realVariable->name()
+                                              + "' in component '" + owningComponent(realVariable)->name()
+                                              + "' is marked as an external variable, but its rate is used in an equation and cannot therefore be provided.");
+                issue->mPimpl->setReferenceRule(Issue::ReferenceRule::ANALYSER_STATE_RATE_AS_ALGEBRAIC);
+                issue->mPimpl->mItem->mPimpl->setVariable(realVariable);
+
+                addIssue(issue);
+
+                hasStatesWithoutRate = true;
+            }
+        }
+    }
 
     for (const auto &internalVariable : mInternalVariables) {
         switch (internalVariable->mType) {
